@@ -38,9 +38,13 @@ type c20World struct {
 	failNext bool // the next keep-alive fails
 }
 
+// c20Latency is how long the scripted pool takes to answer a keep-alive in the worlds built next
+// (0: at once; 12 s: longer than the agent's internal 10 s time-outs, shorter than the interval).
+var c20Latency time.Duration
+
 func c20New() *c20World {
 	node := &recNode{kind: ethnode.Geth, id: c18Ids[5]}
-	sp := &scriptPool{update: &pool.UpdateResponse{}}
+	sp := &scriptPool{update: &pool.UpdateResponse{}, latency: c20Latency}
 	return &c20World{a: &agent.Agent{EthNode: node, UpdateInterval: c20Interval}, node: node, sp: sp}
 }
 
@@ -85,8 +89,9 @@ func (w *c20World) apply(ev string) (cls, detail string) {
 		if err != nil {
 			return "forced-update-failed", err.Error()
 		}
-		if len(w.sp.updates) != updatesBefore+1 {
-			return "forced-update-count", fmt.Sprintf("%d updates sent", len(w.sp.updates)-updatesBefore)
+		// (with a slow pool the loop's own keep-alive may fall into the time the forced one takes)
+		if n := len(w.sp.updates) - updatesBefore; n < 1 || (n > 1 && w.sp.latency == 0) || n > 2 {
+			return "forced-update-count", fmt.Sprintf("%d updates sent", n)
 		}
 	case "tick":
 		if w.failNext && w.running {
@@ -178,9 +183,14 @@ func (w *c20World) key() string {
 }
 
 // all histories up to depth; each history is one controlled execution (default schedule, virtual time)
-func c20Histories(depth int) vh.Unit {
+func c20Histories(depth int, latency time.Duration) vh.Unit {
 	name := fmt.Sprintf("lifecycle-histories/d%d", depth)
+	if latency > 0 {
+		name = fmt.Sprintf("lifecycle-histories/pool-answers-in-%s/d%d", latency, depth)
+	}
 	return vh.Unit{Name: name, Run: func(u *vh.U) {
+		c20Latency = latency
+		defer func() { c20Latency = 0 }()
 		type item struct{ hist []string }
 		frontier := []item{{nil}}
 		seen := map[string]bool{}
@@ -474,7 +484,7 @@ func init() {
 			if tier == "thorough" {
 				depth, bound = 10, 4
 			}
-			us := []vh.Unit{c20Histories(depth), c20CLI()}
+			us := []vh.Unit{c20Histories(depth, 0), c20Histories(depth-1, 12*time.Second), c20CLI()}
 			for _, sc := range []string{"start-start", "start-start-stop", "stop-vs-tick", "wait-vs-stop", "stop-vs-update", "stop-vs-start"} {
 				us = append(us, c20Race(sc, bound))
 			}
